@@ -1,7 +1,7 @@
 (* C07 — numeric literals mean exactly what is written.  Theorems only. *)
 From Coq Require Import QArith.
 From Coq Require Import List NArith ZArith Bool.
-From Okv Require Import Model.Lit Model.LitSpec Proofs.LitProofs.
+From Okv Require Import Model.Lit Model.LitSpec Proofs.LitProofs Proofs.LitShow Proofs.LitExamples.
 Import ListNotations.
 Open Scope N_scope.
 
@@ -30,3 +30,17 @@ Theorem C07_value_exact : forall l d,
   exists t, spec_scan l = Some t /\ (pdec_value d == lit_value t)%Q /\ scale d = lit_places t.
 Proof. exact value_exact. Qed.
 Print Assumptions C07_value_exact.
+
+(* what the printer writes for a Decimal scans back to the same number, places and sign, and to
+   the same style when the integer part has four or more digits (wf_pdec and big are defined in
+   Proofs/LitShow.v) *)
+Theorem C07_show_scan : forall d, wf_pdec d ->
+  exists d', scan (show d) = SOk d' /\ mant d' = mant d /\ scale d' = scale d /\
+             neg d' = neg d /\ (big d = true -> pfmt d' = pfmt d).
+Proof. exact show_scan. Qed.
+Print Assumptions C07_show_scan.
+
+(* the round trip applies to everything the scanner returns *)
+Theorem C07_scanned_wf : forall l d, scan l = SOk d -> wf_pdec d.
+Proof. exact scan_wf. Qed.
+Print Assumptions C07_scanned_wf.
